@@ -184,6 +184,16 @@ Definition on_fn (T : func -> block) (P : program) (f : ident) : program :=
   | None => P
   end.
 
+(* simplify(func) returns a NEW function object: the program after the pass is P
+   plus the rewritten function under a fresh name f' (the callees, and every
+   reference to the original f, keep the original ASTs, as in fpy2) *)
+Definition add_fn (P : program) (f' : ident) (fn' : func) : program := P ++ [(f', fn')].
+
+(* "(P', f') returns what (P, f) returns": the conclusion of every C07 theorem *)
+Definition preserves (N : numops) (P : program) (f : ident) (P' : program) (f' : ident) : Prop :=
+  forall fuel args c v, run N P fuel f args c = ROk v ->
+    exists fuel' v', run N P' fuel' f' args c = ROk v' /\ cval_eqb v v' = true.
+
 (* ---------------------------------------------------------------- syntactic comparisons *)
 Definition rf_eqb_syn (a b : rf) : bool :=
   Bool.eqb (rs a) (rs b) && (rexp a =? rexp b) && (rc a =? rc b).
